@@ -274,7 +274,11 @@ class QuicSession:
     def handle_quic_packet(self):
         for quic_packet in self.packet_buffer_quic:
             if quic_packet.packet_type not in [QuicPacketType.RETRY, QuicPacketType.VERSION_NEG]:
-                self.decrypt_packet(quic_packet)
+                try:
+                    self.decrypt_packet(quic_packet)
+                except (KeyError, IndexError):
+                    # no decryptor for this packet type / key phase yet (e.g. damaged header, keys missing from the key log)
+                    logging.warning(f"Could not decrypt Quic Packet: {quic_packet.dcid}")
 
             if quic_packet.packet_type == QuicPacketType.VERSION_NEG:
                 frame = PseudoVersionNegotiationFrame(payload=quic_packet.supported_version, src_packet=quic_packet)
